@@ -272,8 +272,11 @@ impl<C: Context> Writable<C> for DataFrag {
     writer.write_value(&self.fragments_in_submessage)?;
     writer.write_value(&self.fragment_size)?;
     writer.write_value(&self.data_size)?;
-    if self.inline_qos.is_some() && !self.inline_qos.as_ref().unwrap().parameters.is_empty() {
-      writer.write_value(&self.inline_qos)?;
+    // Write the ParameterList itself, not the Option: speedy encodes an Option with a
+    // leading tag byte, which is not part of the RTPS wire format and is not counted
+    // in len_serialized().
+    if let Some(inline_qos) = self.inline_qos.as_ref() {
+      writer.write_value(inline_qos)?;
     }
     writer.write_bytes(&self.serialized_payload)?;
     Ok(())
